@@ -5,6 +5,7 @@ import (
 	"go/ast"
 	"go/token"
 	"go/types"
+	"strings"
 )
 
 const ssPkg = "pkg/core/statesync"
@@ -335,4 +336,75 @@ func ruleTraverseCallback(c *Ctx) {
 		}
 	}
 	c.Floor("panics inside Billet.Traverse callbacks that remove by hash", n, 1)
+}
+
+// inactive-after-jump: the state-sync module may declare itself finished (stage = inactive) only after the jump to the
+// sync point was performed, or where the ledger does not need one at all (the two early exits of Init, tabled).
+// A restart that finds headers, trie and blocks complete is not such a place: the ledger is still behind the sync point.
+var inactiveWithoutJumpOK = map[string]string{
+	"pkg/core/statesync.(*Module).Init": "the chain is too short for state exchange, or the ledger is already past the previous sync point: regular block processing, nothing to jump to",
+	"pkg/core/statesync.NewModule":      "state exchange disabled by configuration",
+}
+
+func ruleInactiveAfterJump(c *Ctx) {
+	pk := c.P.Pkg(ssPkg)
+	if pk == nil {
+		c.Lost("anchor", "package statesync not found")
+		return
+	}
+	inactive, ok := pk.Types.Scope().Lookup("inactive").(*types.Const)
+	if !ok {
+		c.Lost("anchor", "constant statesync.inactive not found")
+		return
+	}
+	n := 0
+	for _, fd := range c.P.AllFuncDecls() {
+		if fd.Obj.Pkg() != pk.Types || fd.Decl.Body == nil {
+			continue
+		}
+		f := c.P.NewFuncCFG(fd)
+		var sites []site
+		for _, s := range f.WriteSites(ssPkg + "#syncStage") {
+			as, ok := s.node.(*ast.AssignStmt)
+			if !ok || len(as.Rhs) != 1 || as.Tok != token.ASSIGN {
+				continue
+			}
+			if id, ok := ast.Unparen(as.Rhs[0]).(*ast.Ident); ok && f.Info.ObjectOf(id) == inactive {
+				sites = append(sites, s)
+			}
+		}
+		// composite literal in a constructor
+		ast.Inspect(fd.Decl.Body, func(x ast.Node) bool {
+			if kv, ok := x.(*ast.KeyValueExpr); ok {
+				if k, ok := kv.Key.(*ast.Ident); ok && k.Name == "syncStage" {
+					if id, ok := ast.Unparen(kv.Value).(*ast.Ident); ok && f.Info.ObjectOf(id) == inactive {
+						n++
+						key := FuncKey(fd.Obj) + ".inactive-literal"
+						if why, ok := inactiveWithoutJumpOK[FuncKey(fd.Obj)]; ok {
+							c.OK(key, c.P.Pos(kv.Pos()), "tabled: "+why)
+						} else {
+							c.Fail(key, c.P.Pos(kv.Pos()), FuncKey(fd.Obj)+" creates a module that is inactive from the start outside the tabled constructor")
+						}
+					}
+				}
+			}
+			return true
+		})
+		if len(sites) == 0 {
+			continue
+		}
+		n += len(sites)
+		key := FuncKey(fd.Obj) + ".inactive-after-jump"
+		if why, ok := inactiveWithoutJumpOK[FuncKey(fd.Obj)]; ok {
+			c.OK(key, c.P.Pos(sites[0].node.Pos()), "tabled: "+why)
+			continue
+		}
+		jumps := f.CallSites(ssPkg + "#jumpCallback")
+		if ok, path := f.mustBefore(f.Entry(), sites, jumps, nil); ok && len(jumps) > 0 {
+			c.OK(key, c.P.Pos(sites[0].node.Pos()), "the module becomes inactive only after the jump callback ran")
+		} else {
+			c.Fail(key, c.P.Pos(sites[0].node.Pos()), fmt.Sprintf("%s declares the state synchronisation finished (stage = inactive) on a path that never performed the jump to the sync point (%s): a node restarted after the last synchronised block was persisted and before the jump began stays at its old height with the old state already removed", FuncKey(fd.Obj), strings.Join(path, " -> ")))
+		}
+	}
+	c.Floor("places that set the stage to inactive", n, 3)
 }
